@@ -405,3 +405,94 @@ fn probe_rows_3x2() {
     }
     assert!(it.next().is_none());
 }
+
+fn ints3x2(v: &[[i64; 2]; 3]) -> Vec<Data> {
+    vec![
+        Data::Int(v[0][0]), Data::Int(v[0][1]),
+        Data::Int(v[1][0]), Data::Int(v[1][1]),
+        Data::Int(v[2][0]), Data::Int(v[2][1]),
+    ]
+}
+fn probe_iter(range: &Range<Data>, v: &[[i64; 2]; 3]) {
+    let b = no_headers();
+    let Ok(mut it) = b.from_range::<Data, (i64, i64)>(range) else {
+        assert!(false);
+        return;
+    };
+    let mut n = 0;
+    while n < 3 {
+        match it.next() {
+            Some(Ok((a, b))) => assert!(a == v[n][0] && b == v[n][1]),
+            _ => assert!(false),
+        }
+        n += 1;
+    }
+    assert!(it.next().is_none());
+}
+#[kani::proof]
+#[kani::unwind(8)]
+#[kani::stub(alloc::fmt::format, format_stub)]
+fn probe_a() {
+    let v: [[i64; 2]; 3] = kani::any();
+    let range = Range { start: (3, 2), end: (5, 3), inner: ints3x2(&v) };
+    probe_iter(&range, &v);
+}
+#[kani::proof]
+#[kani::unwind(8)]
+#[kani::stub(alloc::fmt::format, format_stub)]
+fn probe_b() {
+    let v: [[i64; 2]; 3] = kani::any();
+    let start = any_origin();
+    let range = Range { start, end: (start.0 + 2, start.1 + 1), inner: ints3x2(&v) };
+    probe_iter(&range, &v);
+}
+
+/// a record that pulls up to 3 elements of type E from the row and remembers how many there were
+struct Row3<E> {
+    n: u8,
+    e: [Option<E>; 3],
+}
+impl<'de, E: Deserialize<'de>> Deserialize<'de> for Row3<E> {
+    fn deserialize<D: Deserializer<'de>>(d: D) -> Result<Self, D::Error> {
+        struct V<E>(PhantomData<E>);
+        impl<'de, E: Deserialize<'de>> Visitor<'de> for V<E> {
+            type Value = Row3<E>;
+            fn expecting(&self, _f: &mut fmt::Formatter<'_>) -> fmt::Result {
+                Ok(())
+            }
+            fn visit_seq<A: SeqAccess<'de>>(self, mut a: A) -> Result<Row3<E>, A::Error> {
+                let mut r = Row3 { n: 0, e: [None, None, None] };
+                while r.n < 3 {
+                    match a.next_element::<E>()? {
+                        Some(x) => r.e[r.n as usize] = Some(x),
+                        None => break,
+                    }
+                    r.n += 1;
+                }
+                Ok(r)
+            }
+        }
+        d.deserialize_seq(V(PhantomData))
+    }
+}
+#[kani::proof]
+#[kani::unwind(8)]
+#[kani::stub(alloc::fmt::format, format_stub)]
+fn probe_c() {
+    let v: [[i64; 2]; 3] = kani::any();
+    let range = Range { start: (3, 2), end: (5, 3), inner: ints3x2(&v) };
+    let b = no_headers();
+    let Ok(mut it) = b.from_range::<Data, Row3<i64>>(&range) else {
+        assert!(false);
+        return;
+    };
+    let mut n = 0;
+    while n < 3 {
+        match it.next() {
+            Some(Ok(r)) => assert!(r.n == 2 && r.e[0] == Some(v[n][0]) && r.e[1] == Some(v[n][1])),
+            _ => assert!(false),
+        }
+        n += 1;
+    }
+    assert!(it.next().is_none());
+}
